@@ -87,6 +87,27 @@ MovesJoinH(h, kn) ==
     IN  IF jc # 0 THEN (IF "probe" \in VisNames(h[jc]) THEN <<>> ELSE PostJoin(h, jc, kn))
         ELSE (IF lc = 1 THEN pre(h[1], 1) ELSE <<>>) \o (IF rc = 2 THEN pre(h[2], 2) ELSE <<>>) \o (IF lc # 1 /\ rc # 2 THEN jm(lc, rc) ELSE <<>>)
 
+(* a column that is not null for null inputs (or one derived from it) on a side that an outer join pads, with a plain alias(), *)
+(* an alias(keep_col_refs=True) or nothing between its definition and the join (the null-strictness rule must follow the       *)
+(* column through re-rooting)                                                                                                  *)
+MovesJoinZ(h, kn) ==
+    LET lc == LCur(h)
+        rc == RCur(h)
+        jc == JCur(h)
+        pre(t, i) == LET a == ColOf(t, "a") b == ColOf(t, "b") z == ColOf(t, "z") IN
+                     (IF NameFree(t, "z") THEN MapS(b, LAMBDA c : MMutate(i, <<KV("z", Fn2("fill_null", Col(c), LitI(0)))>>))
+                                               \o MapS(b, LAMBDA c : MMutate(i, <<KV("z", Fn2("add", Col(c), LitI(1)))>>))
+                                               \o MapS(b, LAMBDA c : MMutate(i, <<KV("z", Case1D(Fn2("gt", Col(c), LitI(0)), LitI(1), LitI(0)))>>)) ELSE <<>>)
+                     \o (IF NameFree(t, "y") THEN MapS(z, LAMBDA c : MMutate(i, <<KV("y", Fn2("add", CN("z"), LitI(1)))>>)) ELSE <<>>)
+                     \o (IF z # <<>> THEN <<MAlias(i, t.name, FALSE), MAlias(i, t.name, TRUE)>> ELSE <<>>)
+        jm(i, j) == LET la == ColOf(h[i], "a") ra == ColOf(h[j], "a") IN
+                    IF la # <<>> /\ ra # <<>>
+                    THEN <<MJoin(i, j, <<Fn2("eq", Col(la[1]), Col(ra[1]))>>, "left", "_r"),
+                           MJoin(i, j, <<Fn2("eq", Col(la[1]), Col(ra[1]))>>, "full", "_r")>>
+                    ELSE <<>>
+    IN  IF jc # 0 THEN <<>>
+        ELSE pre(h[rc], rc) \o (IF lc = 1 THEN <<MMutate(1, <<KV("zl", Fn1("is_null", Col(ColOf(h[1], "b")[1])))>>)>> ELSE <<>>) \o jm(lc, rc)
+
 (* trimmed alphabet: an ordered / sliced / filtered / grouped-and-summarized side, then a join (SQL subquery rules for joins) *)
 MovesJoinS(h, kn) ==
     LET lc == LCur(h)
